@@ -199,10 +199,8 @@ def runResourceSelf (c : Nat) (r : Res) (alive : Bool) (evs : List String) (acc 
     match ev with
     | none => acc ++ ["bad-op"]
     | some ev =>
-      let r' := if !alive then r else
-        match ev with
-        | .finish k => if k = r.started && !r.completedLatest && r.dep != c then rstep r (.write c) else rstep r ev
-        | .write _ => rstep r ev
+      -- the machine step is `selfStep` (Model/Async.lean, Props/C13ReaderTasks.lean); a dead owner reacts to nothing
+      let r' := if !alive then r else selfStep c r ev
       runResourceSelf c r' alive es (acc ++ [showRes r' alive])
 
 def showResR (s : ResR) : String :=
@@ -238,51 +236,38 @@ def runResourceRdFb (c : Nat) (s : ResR) (evs : List String) (acc : List String)
       let s'' := if delivered && s'.res.dep != c then rrStep s' (.ev (.write c)) else s'
       runResourceRdFb c s'' es (acc ++ [showResR s''])
 
+def rtEv (e : String) : Option RTEv :=
+  if e.startsWith "t" then (e.drop 1).toString.toNat?.map .taskDone
+  else if e == "v" then some .readTask
+  else (rrEv e).map fun
+    | .read => .read
+    | .dropOldest => .dropOldest
+    | .disposeOwner => .disposeOwner
+    | .ev x => .ev x
+
+def showResRT (s : ResRT) : String :=
+  showRes s.base.res s.base.alive ++ " B=[" ++ ",".intercalate (s.loading.map fun b => if b then "1" else "0") ++ "]"
+
 /-- `resourcerdt`: some reader boundaries (event `v`) also have a suspense task of their own (completed by `t<i>`): such a
 boundary is loading while that task is pending OR the resource holds a guard for it (the boundary rule: its counter counts
-both). The tasks are kept beside the machine, aligned with its reader list: `some i` = task `i` is pending -/
-def runResourceRdT (s : ResR) (tasks : List (Option Nat)) (nv : Nat) (evs : List String) (acc : List String) : List String :=
-  let showT (s : ResR) (tasks : List (Option Nat)) : String :=
-    showRes s.res s.alive ++ " B=[" ++ ",".intercalate ((List.zip s.readers tasks).map fun (r, t) => if r.guard || t.isSome then "1" else "0") ++ "]"
+both). A fold over `rtStep` (Model/Async.lean; theorems in Props/C13ReaderTasks.lean) -/
+def runResourceRdT (s : ResRT) (evs : List String) (acc : List String) : List String :=
   match evs with
   | [] => acc
   | e :: es =>
-    if e.startsWith "t" then
-      match (e.drop 1).toString.toNat? with
-      | none => acc ++ ["bad-op"]
-      | some i =>
-        let tasks' := tasks.map fun t => if t == some i then none else t
-        runResourceRdT s tasks' nv es (acc ++ [showT s tasks'])
-    else
-    let (ev, isV) := if e == "v" then (some RREv.read, true) else (rrEv e, false)
-    match ev with
+    match rtEv e with
     | none => acc ++ ["bad-op"]
-    | some ev =>
-      let s' := rrStep s ev
-      let grew := s'.readers.length > s.readers.length
-      let tasks' := match ev with
-        | .read => if grew then tasks ++ [if isV then some nv else none] else tasks
-        | .dropOldest => tasks.tail
-        | _ => tasks
-      let nv' := if isV && grew then nv + 1 else nv
-      runResourceRdT s' tasks' nv' es (acc ++ [showT s' tasks'])
+    | some ev => let s' := rtStep s ev; runResourceRdT s' es (acc ++ [showResRT s'])
 
 /-- `resourcerdw`: readers observed, and the observer of every reader boundary writes the dependency (to `c`, once it differs)
-when its boundary resolves: a delivery that releases at least one boundary is followed by that write -/
+when its boundary resolves: a delivery that releases at least one boundary is followed by that write. A fold over `rwStep` -/
 def runResourceRdW (c : Nat) (s : ResR) (evs : List String) (acc : List String) : List String :=
   match evs with
   | [] => acc
   | e :: es =>
     match rrEv e with
     | none => acc ++ ["bad-op"]
-    | some ev =>
-      let s' := rrStep s ev
-      let delivered := match ev with
-        | .ev (.finish k) => s.alive && k = s.res.started && !s.res.completedLatest
-        | _ => false
-      let released := s.readers.any (·.guard)
-      let s'' := if delivered && released && s'.res.dep != c then rrStep s' (.ev (.write c)) else s'
-      runResourceRdW c s'' es (acc ++ [showResR s''])
+    | some ev => let s' := rwStep c s ev; runResourceRdW c s' es (acc ++ [showResR s'])
 
 /-- `resourcerdfx`: readers observed, and a subscriber of the value that disposes the owner of the resource from
 inside a delivery -/
@@ -309,7 +294,7 @@ def handle (line : String) : String :=
     | none => "bad-op"
   | "resourcerdt" :: d :: evs :: [] =>
     match d.toNat? with
-    | some d => " | ".intercalate (runResourceRdT (ResR.init d) [] 0 (if evs == "-" then [] else evs.splitOn ",") [showResR (ResR.init d)])
+    | some d => " | ".intercalate (runResourceRdT (ResRT.init d) (if evs == "-" then [] else evs.splitOn ",") [showResRT (ResRT.init d)])
     | none => "bad-op"
   | "resourcerdw" :: d :: c :: evs :: [] =>
     match d.toNat?, c.toNat? with
